@@ -49,7 +49,7 @@ impl Property for C07 {
                 own: 0,
                 chain_len: vec![3, 0, 1],
                 fin: vec![Fin::No],
-                extras: vec![],
+                extras: vec![], ghosts: vec![],
                 seed: 1,
                 spread: 1000,
                 ops: vec![WOp::Cert(0), WOp::Cert(10000), WOp::Cert(20000), WOp::Cert(60000), WOp::Cert(50000), WOp::Cert(40000), WOp::Cert(30000), WOp::Cert(45000), WOp::Cert(35000)],
@@ -59,7 +59,7 @@ impl Property for C07 {
                 own: 1,
                 chain_len: vec![2, 0, 0, 2],
                 fin: vec![Fin::Fast, Fin::No, Fin::Slow],
-                extras: vec![ExtraSpec { slot: 30000, parent: 0, notar: true }],
+                extras: vec![ExtraSpec { slot: 30000, parent: 0, notar: true }], ghosts: vec![],
                 seed: 7,
                 spread: 1000,
                 ops: (0..40u32).map(|k| if k % 3 == 0 { WOp::Link((k * 1500) as u16) } else { WOp::Cert((k * 1600 + 123) as u16) }).collect(),
